@@ -93,7 +93,9 @@ func newFileSet(env *env, p string, r *FileSet) (*fileSet, error) {
 	bads := make(map[string]bool)
 	ignore := func(name string) bool {
 		for _, i := range ignoreDirs {
-			if strings.HasPrefix(name, i) {
+			// A directory covers only what is beneath it; the empty
+			// path is the root, which covers everything.
+			if i == "" || strings.HasPrefix(name, i+"/") {
 				return true
 			}
 		}
